@@ -13,10 +13,14 @@
 (* HISTORY variable `first` (types in order of first registration) and the *)
 (* list of types an iterator has yielded, never against the tables.        *)
 (*                                                                         *)
-(* Deliberate deviations: (1) after a `next` that panicked the iterator is *)
-(* not used again (the property does not say what it does then); (2) the   *)
-(* table and the world are only mutated while no iterator / guard is alive *)
-(* -- the Rust borrow checker enforces exactly that.                       *)
+(* A `next` that panics (conflicting borrow, bad cast) has already moved   *)
+(* past the entry it panicked on (the code advances its index BEFORE it    *)
+(* borrows): the SAME iterator, pulled again after the panic was caught,   *)
+(* continues with the following registered entries, each with its own tag, *)
+(* address and methods.  `y` therefore lists the types the iterator has    *)
+(* PASSED (yielded or panicked on).                                        *)
+(* Deliberate deviation: the table and the world are only mutated while no *)
+(* iterator / guard is alive -- the Rust borrow checker enforces that.     *)
 (***************************************************************************)
 EXTENDS Naturals, Sequences, FiniteSets
 
@@ -109,7 +113,7 @@ VARIABLES
   tab,      \* the MetaTable
   present,  \* world cells <<t, d>> holding a value
   guards,   \* [guard id -> [t, d, k, src]]  live borrows; src \in {"fetch", "item"}
-  iters,    \* [iterator id -> [k, pos, y]]   kind, next position, types yielded so far (history)
+  iters,    \* [iterator id -> [k, pos, y]]   kind, next position, types passed so far (history)
   first,    \* history: types in order of first registration
   ok,       \* the outcome of the last call satisfied the property predicate
   hist      \* history of calls with outcomes and the borrow table after the call
@@ -198,11 +202,11 @@ IterNext(h) ==
         /\ guards' = IF out.o = "some"
                      THEN Ext(guards, g, [t |-> out.obj[1], d |-> 0, k |-> it.k, src |-> "item"])
                      ELSE guards
-        /\ iters' = IF out.o = "some"
-                    THEN [iters EXCEPT ![h] = [k |-> it.k, pos |-> NextPos(tab, present, it.pos) + 1,
+        \* some / panic_borrow / panic_cast: `self.index += 1` happened before the borrow and the
+        \* cast, so the entry is passed in all three cases and the iterator stays usable
+        /\ iters' = IF out.o = "none" THEN [iters EXCEPT ![h].pos = Len(tab.tys) + 1]
+                    ELSE [iters EXCEPT ![h] = [k |-> it.k, pos |-> NextPos(tab, present, it.pos) + 1,
                                                y |-> Append(it.y, out.obj[1])]]
-                    ELSE IF out.o = "none" THEN [iters EXCEPT ![h].pos = Len(tab.tys) + 1]
-                    ELSE Rem(iters, h)                                  \* deviation (1)
         /\ Log(Call("next", 0, 0, it.k, h, IF out.o = "some" THEN g ELSE 0, out, present, guards'))
   /\ UNCHANGED <<tab, present, first>>
 
